@@ -14,6 +14,7 @@ using json = nlohmann::json;
 using opentelemetry::common::SpinLockMutex;
 
 static int g_in_cs = 0;
+static int g_hold  = 0;  // 1: thread 1 sleeps (virtual 5 ms) inside its critical sections
 
 static void emitf(const char *fmt, ...)
 {
@@ -29,7 +30,10 @@ static void critical(int t)
 {
   g_in_cs++;
   emitf("{\"e\":\"Acquired\",\"t\":%d,\"ok\":true,\"occ\":%d}", t, g_in_cs);
-  vs::point(vs::K_USER, nullptr);  // other threads may run while the lock is held
+  if (g_hold && t == 1)
+    std::this_thread::sleep_for(std::chrono::milliseconds(5));  // a long critical section
+  else
+    vs::point(vs::K_USER, nullptr);  // other threads may run while the lock is held
 }
 
 // called right after unlock() returned: no scheduling point lies between the releasing store and
@@ -186,6 +190,7 @@ static int do_explore(int argc, char **argv)
   uint64_t seed     = strtoull(argv[4], nullptr, 10);
   int nthr = atoi(argv[5]), rounds = atoi(argv[6]);
   int bound = argc > 7 ? atoi(argv[7]) : 2;
+  g_hold    = argc > 8 ? atoi(argv[8]) : 0;
   hc::install();
   hc::pending_header() = "{\"e\":\"Cfg\",\"nthr\":" + std::to_string(nthr) + ",\"rounds\":" + std::to_string(rounds) + "}";
   std::vector<int> tape;
@@ -208,7 +213,8 @@ static int do_explore(int argc, char **argv)
       cfg.tape          = tape;
       cfg.preempt_bound = bound;
     }
-    cfg.max_steps = 20000;
+    cfg.max_steps  = 20000;
+    cfg.spin_limit = 400;  // longer than the lock's own spin cycle (100 fast iterations, yield, sleep)
     std::string modes(rounds, 'l');
     g_in_cs = 0;
     vs::Result res = vs::run(cfg, [&]() {
